@@ -35,7 +35,12 @@ Definition val := option Z.                       (* None = nil *)
 Inductive daemon := DPrimary | DBefore | DAfter | DWhopper.
 (* what a Caller does when run: a user lambda traces its id (a whopper then calls continue-whopper or not),
    getter/setter are defflavor.go's [getter]/[setter], BVanilla is one of vanilla.go's callers *)
-Inductive body := BUser (id : nat) (cont : bool) | BGetter (v : nat) | BSetter (v : nat) | BVanilla.
+(* how often the body of a whopper calls (continue-whopper): not at all (it returns its id), once, or twice (a
+   retry: the rest runs twice, the value is that of the last call).  Booleans are read as CNo / COnce. *)
+Inductive conts := CNo | COnce | CTwice.
+Definition conts_of_bool (b : bool) : conts := if b then COnce else CNo.
+Coercion conts_of_bool : bool >-> conts.
+Inductive body := BUser (id : nat) (cont : conts) | BGetter (v : nat) | BSetter (v : nat) | BVanilla.
 
 (* v_io (repo_fixes/C11-4, C11-5): inheritFlavor also copies the inittable set and the required init keywords *)
 Record version := { v_insert : bool; v_vanilla : bool; v_bound : bool; v_io : bool }.   (* true = repaired code *)
@@ -264,7 +269,7 @@ Definition def_flavor (v : version) (st : state) (f : nat) (vars : list (nat * v
 (* ---- histories ------------------------------------------------------------------------------------ *)
 Inductive form :=
 | DFlavor (f : nat) (vars : list (nat * val)) (comps : list nat) (keys : list (nat * val)) (gets sets : accs) (io : iopts)
-| DMethod (f : nat) (d : daemon) (m : mid) (id : nat) (cont : bool).    (* defmethod / defwhopper with a tracing body *)
+| DMethod (f : nat) (d : daemon) (m : mid) (id : nat) (cont : conts).    (* defmethod / defwhopper with a tracing body *)
 
 Definition step (v : version) (st : state) (x : form) : state * outcome :=
   match x with
@@ -320,8 +325,9 @@ Fixpoint scan_wrap (cs : list combo) (i : nat) : option (nat * body) :=
 Definition wrap_from (cs : list combo) (i : nat) : option (nat * body) := scan_wrap (skipn i cs) i.
 Definition run_wrap (b : body) (k : out) : out :=
   match b with
-  | BUser id true => (Ev id :: fst k ++ [EvEnd id], snd k)
-  | BUser id false => ([Ev id; EvEnd id], RVal (Z.of_nat id))
+  | BUser id COnce => (Ev id :: fst k ++ [EvEnd id], snd k)
+  | BUser id CTwice => (Ev id :: fst k ++ fst k ++ [EvEnd id], snd k)   (* WhopLoc.Continue does not move the caller's location *)
+  | BUser id CNo => ([Ev id; EvEnd id], RVal (Z.of_nat id))
   | _ => ([], ROther)
   end.
 (* WhopLoc.Continue (repaired, repo_fixes/C10-2.patch): for i := wl.Current+1; i < len; i++ { if wrap != nil {
